@@ -7,6 +7,8 @@ CLAIMED = {
     "C14": ("SMT (z3; IEEE exp under/overflow as axioms on an uninterpreted Exp; division-by-zero side "
             "obligations) over symbolic execution of the thermal/impulsive state builders and the real "
             "basis-context machinery with an eigh contract stub", "4/C14", ""),
+    "C16": ("Table-SMT (z3 integer queries over the index/link tables the real code builds) + SMT over symbolic "
+            "execution of the HEOM right-hand sides and propagate()", "4/C16", ""),
     "C17": ("SMT (z3 nonlinear real arithmetic, Exp uninterpreted with instantiated functional equation) over "
             "symbolic execution of set_rate, the order-4 population propagator and get_PropagationMatrix",
             "4/C17", ""),
@@ -19,5 +21,5 @@ CLAIMED = {
 }
 _NYB = "check not built yet in this round (design in DESIGN.md section 4); not claimed until its harness is sound"
 NOT_APPLICABLE = {p: _NYB for p in
-                  ["C%02d" % i for i in range(2, 20) if i not in (13, 14, 17, 19)]}
+                  ["C%02d" % i for i in range(2, 20) if i not in (13, 14, 16, 17, 19)]}
 SOURCE_COMMITS = []
